@@ -74,4 +74,38 @@ theorem extract_buildHTTPPath (sp mp : Str) (h : '{' ∉ sp) :
         simp only [extractPathParamsAux, show ('/' : Char) ≠ '{' by decide, if_false]
         exact extract_trimPrefixSlash mp
 
+
+/-- a list without repetition is its own `uniqueFirst`. -/
+theorem uniqueFirst_of_nodup : ∀ (l : List Str), l.Nodup → uniqueFirst l = l
+  | [], _ => rfl
+  | x :: xs, h => by
+    have hx : x ∉ xs := (List.nodup_cons.mp h).1
+    have hxs := (List.nodup_cons.mp h).2
+    unfold uniqueFirst
+    rw [uniqueFirst_of_nodup xs hxs]
+    congr 1
+    apply List.filter_eq_self.mpr
+    intro y hy
+    have : y ≠ x := fun e => hx (e ▸ hy)
+    simp [this]
+
+/-- `uniqueFirst` never repeats a name. -/
+theorem uniqueFirst_nodup : ∀ (l : List Str), (uniqueFirst l).Nodup
+  | [] => List.nodup_nil
+  | x :: xs => by
+    unfold uniqueFirst
+    refine List.nodup_cons.mpr ⟨?_, (uniqueFirst_nodup xs).filter _⟩
+    intro h
+    have := (List.mem_filter.mp h).2
+    simp at this
+
+/-- `uniqueFirst` keeps exactly the names of the list. -/
+theorem mem_uniqueFirst : ∀ (l : List Str) (a : Str), a ∈ uniqueFirst l ↔ a ∈ l
+  | [], a => by simp [uniqueFirst]
+  | x :: xs, a => by
+    unfold uniqueFirst
+    by_cases h : a = x
+    · subst h; simp
+    · simp [List.mem_filter, mem_uniqueFirst xs a, h]
+
 end Sebuf.C18
